@@ -136,7 +136,7 @@ def gameOf (ts : List (TeamAgg ℝ)) : Game ts.length :=
 
 /-- the gamma callback, called as the code calls it: `gamma(c, k, mu_i, sigma_i², team, rank_i)` -/
 def gammaOf (g : GammaFn ℝ) (ts : List (TeamAgg ℝ)) : ℝ → Fin ts.length → ℝ :=
-  fun c i => gammaVal g c ts.length ts[i].mu ts[i].sig2 ts[i].rank
+  fun c i => gammaVal g c ts.length ts[i].mu ts[i].sig2 ts[i].players ts[i].rank
 
 /-- the published `(Ω_i, Δ_i)` of each of the five models -/
 def specOmegaDelta (K : Kind) (L : Leaves ℝ) (P : Params ℝ) (ts : List (TeamAgg ℝ))
